@@ -235,6 +235,16 @@ func (n *Node) Shape() string {
 // any survived minimisation (they are then necessary for the disagreement), else the
 // function / aggregation over its operand kind / binary operation with operand kinds.
 func (n *Node) Head() string {
+	kinds := func(k *Node) string {
+		set := map[string]struct{}{}
+		k.mkinds(set)
+		ks := make([]string, 0, len(set))
+		for x := range set {
+			ks = append(ks, x)
+		}
+		sort.Strings(ks)
+		return "<" + strings.Join(ks, ",") + ">"
+	}
 	short := func(k *Node) string {
 		p := ""
 		if k.Paren {
@@ -243,25 +253,29 @@ func (n *Node) Head() string {
 		switch k.Kind {
 		case "sel":
 			if k.Offset != 0 {
-				return p + "selector offset"
+				return p + "selector offset" + kinds(k)
 			}
-			return p + "selector"
+			return p + "selector" + kinds(k)
 		case "rfn":
 			if k.Offset != 0 {
-				return p + "range-function offset"
+				return p + "range-function offset" + kinds(k)
 			}
-			return p + "range-function"
+			return p + "range-function" + kinds(k)
 		case "agg":
 			g := k.Grouping
 			if g == "" {
 				g = "all"
 			}
-			return p + "aggregation-" + g
+			return p + "aggregation-" + g + kinds(k)
 		case "bin":
-			if k.Paren {
-				return "paren binary"
+			c := "arithmetic"
+			if isCmp(k.Op) {
+				c = "comparison"
+				if k.Bool {
+					c = "bool-comparison"
+				}
 			}
-			return "binary"
+			return "paren " + c + kinds(k)
 		case "num":
 			return "scalar"
 		}
@@ -292,12 +306,25 @@ func (n *Node) Head() string {
 		if n.Bool {
 			op += " bool"
 		}
+		m := ""
 		if n.Match != "" {
-			op += " " + n.Match
+			m = " " + n.Match
 		}
-		return "binary " + short(n.L) + "," + short(n.R) + ":" + op
+		return "binary" + m + " " + short(n.L) + "," + short(n.R) + ":" + op
 	}
 	return short(n)
+}
+
+func (n *Node) mkinds(into map[string]struct{}) {
+	if n == nil {
+		return
+	}
+	if n.MKind != "" {
+		into[n.MKind] = struct{}{}
+	}
+	n.Child.mkinds(into)
+	n.L.mkinds(into)
+	n.R.mkinds(into)
 }
 
 // windows lists, for every selector of the expression, how far back its data window
@@ -580,7 +607,7 @@ func (g *gen) matcher(metric string, op string) Matcher {
 		}
 		for _, x := range vals {
 			cands = append(cands, x, x[:1]+".*", ".*"+x[len(x)-1:], x+"|zzz")
-			if len(x) > 1 && g.rng.IntN(3) == 0 {
+			if len(x) > 1 && g.rng.IntN(12) == 0 {
 				cands = append(cands, x[:len(x)-1], x[1:]) // proper prefix / suffix: anchoring matters
 			}
 		}
@@ -759,15 +786,29 @@ func (g *gen) binScalar(op string, boolMod bool, scalarLeft bool, child *Node) *
 		}
 	}
 	n := &Node{Kind: "bin", Op: op, Bool: boolMod}
+	num := g.num()
+	if isCmp(op) && child.Kind == "sel" && g.rng.IntN(4) > 0 {
+		// a threshold inside the value range of the family, so that both outcomes occur
+		switch child.MKind {
+		case "counter":
+			num.Val = pick(g, []float64{300, 800, 1500})
+		case "gauge":
+			num.Val = pick(g, []float64{700, 1000, 1300})
+		case "special":
+			num.Val = pick(g, []float64{0, 5, 12.5})
+		case "small":
+			num.Val = pick(g, []float64{0, 1, 2, 3})
+		}
+	}
 	if g.rng.IntN(5) == 0 {
 		c := *child
 		c.Paren = true
 		child = &c
 	}
 	if scalarLeft {
-		n.L, n.R = g.num(), child
+		n.L, n.R = num, child
 	} else {
-		n.L, n.R = child, g.num()
+		n.L, n.R = child, num
 	}
 	return n
 }
@@ -866,7 +907,12 @@ func (g *gen) systematic(i int) *Node {
 	}
 	k -= 2 * len(arithOps)
 	if k < 2*len(cmpOps) {
-		return g.binScalar(cmpOps[k/2], k%2 == 1, g.rng.IntN(3) == 0, g.leaf())
+		child := g.leaf()
+		if ss := g.set.byMetric["queue_len"]; len(ss) > 0 && (cmpOps[k/2] == "==" || cmpOps[k/2] == "!=") {
+			child = g.sel("queue_len", "small", "") // equality needs exactly representable values
+			child.Matchers = nil
+		}
+		return g.binScalar(cmpOps[k/2], k%2 == 1, g.rng.IntN(3) == 0, child)
 	}
 	k -= 2 * len(cmpOps)
 	if k < 4 { // offsets, positive and negative, on selector and range selector
